@@ -158,12 +158,151 @@ UNITS = [
          timeout=900, under_contract=[], **DRIVE_REPLAY.get(sname, {}))
     for sname in DRIVE_SCRIPTS
 ]
+# ---- members that were instantiated but in no unit (specs/C12/mv_spec.h; enforced contracts, forwarder style; own small promise vocabulary - lib/model_promise.c is NOT
+#      included here because the real promise<void> members are the functions under contract)
+MV = dict(
+    item_move_assign=r'^cocls::scheduler::SchItem::operator=\(cocls::scheduler::SchItem&&\)$', pr_move_assign=r'^cocls::promise<void>::operator=\(cocls::promise<void>&&\)$',
+    pr_set_drop=r'^cocls::promise<void>::set_value\(cocls::DropTag\)$', pr_claim=r'^cocls::promise<void>::claim\(\) const$', pr_bool=r'^cocls::promise<void>::operator bool\(\) const$',
+    pr_not=r'^cocls::promise<void>::operator!\(\) const$', spb_dtor=r'^cocls::suspend_point<bool>::~suspend_point\(\)$', spv_dtor=r'^cocls::suspend_point<void>::~suspend_point\(\)$',
+    spb_ctor_sp=r'^cocls::suspend_point<bool>::suspend_point\(cocls::suspend_point<void>&&, bool\)$', spb_ctor_b=r'^cocls::suspend_point<bool>::suspend_point\(bool\)$',
+    fut_resolve=r'^cocls::future<void>::resolve\(\)$',
+    sch_ctor=r'^cocls::scheduler::scheduler\(\)$', gs_ctor=r'^cocls::scheduler::GlobState::GlobState\(\)$', gs_dtor=r'^cocls::scheduler::GlobState::~GlobState\(\)$',
+    vec_ctor=r'^std::vector<cocls::scheduler::SchItem, std::allocator<cocls::scheduler::SchItem> >::vector\(\)$', mx_ctor=r'^std::mutex::mutex\(\)$', cond_ctor=r'^std::condition_variable::condition_variable\(\)$',
+    opt_ctor=r'^std::optional<cocls::scheduler::GlobState>::optional\(\)$', futv_ctor=r'^cocls::future<void>::future\(\)$', futv_dtor=r'^cocls::future<void>::~future\(\)$',
+    ss_ctor=r'^std::stop_source::stop_source\(\)$', ss_dtor=r'^std::stop_source::~stop_source\(\)$',
+)
+T_MV = dict(ITEM='cocls::scheduler::SchItem', PROM='cocls::promise<void>', SPB='cocls::suspend_point<bool>', SP='cocls::suspend_point<void>', FUT='cocls::future<void>', SCHED='cocls::scheduler',
+            GLOBST='cocls::scheduler::GlobState', STOPSRC='std::stop_source', VECT=TYPES['VECT'], OPTGS='std::optional<cocls::scheduler::GlobState>')
+def unitM(name, alias, roots=(), abstract=(), uc=None, **kw):
+    d = dict(name=name, driver='c12_sched.cpp', roots=[MV[alias]] + [MV[r] for r in roots], names={alias: MV[alias]}, names_opt={a: MV[a] for a in abstract}, types=T_MV, globals={},
+             boundary=[MV[a] for a in abstract], lib=['rt_core.c', 'rt_atomic_seq.c'], spec=['C12/mv_spec.h'], harness='h_' + name, enforce=alias, defines=[],
+             under_contract=uc or [MV[alias].strip('^$').replace('\\', '')], timeout=300)
+    d.update(kw)
+    return d
+UNITS += [
+    unitM('item_move_assign', 'item_move_assign', roots=['pr_move_assign', 'pr_claim'], abstract=['pr_set_drop', 'spb_dtor'],
+          uc=['cocls::scheduler::SchItem::operator=(cocls::scheduler::SchItem&&)', 'cocls::promise<void>::operator=(cocls::promise<void>&&)', 'cocls::promise<void>::claim() const']),
+    unitM('pr_move_assign', 'pr_move_assign', roots=['pr_claim'], abstract=['pr_set_drop', 'spb_dtor']),
+    unitM('pr_set_drop', 'pr_set_drop', roots=['pr_claim'], abstract=['fut_resolve', 'spb_ctor_sp', 'spb_ctor_b', 'spv_dtor'], defines=['CV_ENFORCE_pr_set_drop 1']),
+    unitM('pr_bool', 'pr_bool'),
+    unitM('pr_not', 'pr_not'),
+    unitM('sch_ctor', 'sch_ctor', abstract=['vec_ctor', 'mx_ctor', 'cond_ctor', 'opt_ctor']),
+    unitM('globstate_ctor', 'gs_ctor', abstract=['futv_ctor', 'futv_dtor', 'ss_ctor']),
+    unitM('globstate_dtor', 'gs_dtor', abstract=['futv_dtor', 'ss_dtor']),
+]
+# ---- thread mode / thread-pool mode start-up: start_in(std::thread&), start_in(thread_pool&) and their lambdas (specs/C12/st_spec.h; forwarder style)
+SIT = r'cocls::scheduler::start_in\(std::thread&\)'
+SIP = r'cocls::scheduler::start_in\(cocls::thread_pool&\)'
+ST = dict(
+    sit=r'^%s$' % SIT, sit_body=r'^%s::\{lambda\(\)#1\}::operator\(\)\(\)$' % SIT, sit_lam_move=r'^%s::\{lambda\(\)#1\}::thread\(\{lambda\(\)#1\}&&\)$' % SIT, sit_lam_dtor=r'^%s::\{lambda\(\)#1\}::~thread\(\)$' % SIT,
+    sip=r'^%s$' % SIP, sip_body=r'^%s::\{lambda\(\)#1\}::operator\(\)\(\) const$' % SIP, sip_inner=r'^auto %s::\{lambda\(\)#1\}::operator\(\)\(\) const::\{lambda\(auto:1\)#1\}::operator\(\)<cocls::promise<void> >\(cocls::promise<void>\) const$' % SIP,
+    o_has_value=r'^std::optional<cocls::scheduler::GlobState>::has_value\(\) const$', o_arrow=r'^std::optional<cocls::scheduler::GlobState>::operator->\(\)$', o_emplace=r'std::optional<cocls::scheduler::GlobState>::emplace<>\(\)$',
+    f_get_promise=r'^cocls::future<void>::get_promise\(\)$', p_move=r'^cocls::promise<void>::promise\(cocls::promise<void>&&\)$', p_dtor=r'^cocls::promise<void>::~promise\(\)$',
+    t_ctor=r'^std::thread::thread<%s::\{lambda\(\)#1\}, , void>\(' % SIT, t_dtor=r'^std::thread::~thread\(\)$', t_assign=r'^std::thread::operator=\(std::thread&&\)$',
+    ss_get_token=r'^std::stop_source::get_token\(\) const$', tok_dtor=r'^std::stop_token::~stop_token\(\)$', wk_ramp_f=r'^cocls::async<void> cocls::scheduler::worker_coro<false>\(std::stop_token\)$',
+    wk_ramp_t=r'^cocls::async<void> cocls::scheduler::worker_coro<true>\(std::stop_token\)$', as_start=r'^cocls::async<void>::start\(cocls::promise<void>&\)$', as_dtor=r'^cocls::async<void>::~async\(\)$',
+    spb_dtor=r'^cocls::suspend_point<bool>::~suspend_point\(\)$', f_shift=r'^cocls::future<void>& cocls::future<void>::operator<< <%s::\{lambda\(\)#1\}>\(' % SIP,
+    f_ctor_inner=r'^cocls::future<void>::future<%s::\{lambda\(\)#1\}::operator\(\)\(\) const::\{lambda\(auto:1\)#1\}>\(' % SIP, tp_resume_b=r'^bool cocls::thread_pool::resume<bool>\(cocls::suspend_point<bool>&&\)$',
+)
+T_ST = dict(T_MV, THR='std::thread', STOPTOK='std::stop_token', ASY='cocls::async<void>', TPOOL='cocls::thread_pool')
+def unitS(name, alias, roots=(), abstract=(), ptypes=None, uc=None, **kw):
+    d = dict(name=name, driver='c12_sched.cpp', roots=[ST[alias]] + [ST[r] for r in roots], names={alias: ST[alias]}, names_opt={a: ST[a] for a in abstract}, types=T_ST, ptypes=ptypes or {}, globals={},
+             boundary=[ST[a] for a in abstract], lib=['rt_core.c', 'rt_atomic_seq.c'], spec=['C12/st_spec.h'], harness='h_' + name, enforce=alias, defines=[],
+             under_contract=uc or [ST[alias].strip('^$').replace('\\', '')], timeout=300)
+    d.update(kw)
+    return d
+OPT = ['o_has_value', 'o_arrow', 'o_emplace']
+ST.update(f_result_of=r'^void cocls::future<void>::result_of<%s::\{lambda\(\)#1\}>\(' % SIP, fv_dtor=r'^cocls::future<void>::~future\(\)$', fv_ctor=r'^cocls::future<void>::future\(\)$',
+          p_ctor_fut=r'^cocls::promise<void>::promise\(cocls::future<void>&\)$', p_call_exc_rv=r'^cocls::suspend_point<bool> cocls::promise<void>::operator\(\)<std::__exception_ptr::exception_ptr>\(std::__exception_ptr::exception_ptr&&\)$')
+UNITS += [
+    unitS('start_in_thread', 'sit', roots=['sit_lam_dtor'], abstract=OPT + ['f_get_promise', 'p_move', 'p_dtor', 't_ctor', 't_dtor', 't_assign'], ptypes={'LAMT': ST['sit_lam_dtor'] + '#0'},
+          uc=['cocls::scheduler::start_in(std::thread&)', 'cocls::scheduler::start_in(std::thread&)::{lambda()#1}::~<closure>()']),
+    unitS('start_in_thread_body', 'sit_body', abstract=['o_arrow', 'ss_get_token', 'tok_dtor', 'wk_ramp_f', 'as_start', 'as_dtor', 'spb_dtor'], ptypes={'LAMT': ST['sit_body'] + '#0'}),
+    unitS('start_in_pool', 'sip', abstract=OPT + ['f_shift'], ptypes={'LAMP': ST['f_shift'] + '#1'}),
+    unitS('start_in_pool_body', 'sip_body', abstract=['f_ctor_inner'], ptypes={'LAMP': ST['sip_body'] + '#1', 'LAMPI': ST['f_ctor_inner'] + '#1'}),
+    # future.h templates instantiated with the scheduler's lambdas: "future << fn" / "future(fn)" evaluate the callable exactly once, in place (assumed by units start_in_pool / start_in_pool_body)
+    unitS('fut_shift_pool', 'f_shift', roots=['f_result_of'], abstract=['sip_body', 'fv_dtor', 'fv_ctor', 'f_get_promise', 'p_dtor', 'p_call_exc_rv', 'spb_dtor'], ptypes={'LAMP': ST['f_shift'] + '#1'}, defines=['ST_ENFORCE_F_SHIFT 1'],
+          uc=['cocls::future<void>::operator<< <start_in(thread_pool&)::{lambda()#1}>', 'cocls::future<void>::result_of<start_in(thread_pool&)::{lambda()#1}>']),
+    unitS('fut_ctor_inner', 'f_ctor_inner', abstract=['sip_inner', 'p_ctor_fut', 'p_dtor'], ptypes={'LAMPI': ST['f_ctor_inner'] + '#1'}, defines=['ST_ENFORCE_F_CTOR 1'],
+          uc=['cocls::future<void>::future<start_in(thread_pool&)::{lambda()#1}::operator()() const::{lambda(auto)#1}>(Fn&&)']),
+    unitS('start_in_thread_closure_move', 'sit_lam_move', roots=['p_move'], ptypes={'LAMT': ST['sit_lam_move'] + '#0'}, uc=['cocls::scheduler::start_in(std::thread&)::{lambda()#1} move constructor (what std::thread uses to take the closure over)', 'cocls::promise<void>::promise(cocls::promise<void>&&)', 'cocls::promise<void>::claim() const']),
+    unitS('start_in_pool_inner', 'sip_inner', abstract=['o_arrow', 'ss_get_token', 'tok_dtor', 'wk_ramp_t', 'as_start', 'as_dtor', 'spb_dtor', 'tp_resume_b'], ptypes={'LAMPI': ST['sip_inner'] + '#0'}),
+]
+# ---- remaining forwarders of start(...) and interval() (specs/C12/sx_spec.h)
+STF = r'cocls::scheduler::start<cocls::future<int>&>\(cocls::future<int>&\)'
+IVL = r'cocls::scheduler::interval<long, std::ratio<1l, 1000l> >\(.*\)'
+SX = dict(
+    sx_start_thr=r'^auto cocls::scheduler::start<std::thread&>\(std::thread&\)$', sx_start_pool=r'^auto cocls::scheduler::start<cocls::thread_pool&>\(cocls::thread_pool&\)$',
+    sx_sit=ST['sit'], sx_sip=ST['sip'],
+    sx_done_cb=r'^auto %s::\{lambda\(auto:1\)#1\}::operator\(\)<cocls::await_result<int> >\(cocls::await_result<int>\) const$' % STF,
+    sx_ar_deref=r'^cocls::await_result<int>::operator\*\(\) const$', sx_opt_emplace=r'std::optional<int>::emplace<int>\(int&&\)$', sx_request_stop=r'^std::stop_source::request_stop\(\) const$',
+    sx_run_lam=r'^%s::\{lambda\(\)#1\}::operator\(\)\(\) const$' % STF, sx_detach=r'^cocls::async<void>::detach\(\)$', sx_spv_dtor=r'^cocls::suspend_point<void>::~suspend_point\(\)$',
+    sx_ivl_sleep=r'^%s::\{lambda\(\)#2\}::operator\(\)\(\) const$' % IVL, sx_sleep_until=RX['sleep_until'],
+)
+T_SX = dict(T_ST, AWR='cocls::await_result<int>', OPTI='std::optional<int>', EPTR='std::__exception_ptr::exception_ptr')
+def unitX(name, alias, abstract=(), ptypes=None, **kw):
+    d = dict(name=name, driver='c12_sched.cpp', roots=[SX[alias]], names={alias: SX[alias]}, names_opt={a: SX[a] for a in abstract}, types=T_SX, ptypes=ptypes or {}, globals={},
+             boundary=[SX[a] for a in abstract], lib=['rt_core.c', 'rt_atomic_seq.c'], spec=['C12/sx_spec.h'], harness='h_' + name, enforce=alias, defines=[],
+             under_contract=[SX[alias].strip('^$').replace('\\', '').replace('.*', '...')], timeout=300)
+    d.update(kw)
+    return d
+UNITS += [
+    unitX('start_thread_fwd', 'sx_start_thr', abstract=['sx_sit']),
+    unitX('start_pool_fwd', 'sx_start_pool', abstract=['sx_sip']),
+    unitX('start_done_cb', 'sx_done_cb', abstract=['sx_ar_deref', 'sx_opt_emplace', 'sx_request_stop'], ptypes={'LAMCB': SX['sx_done_cb'] + '#0'}),
+    unitX('start_run_lambda', 'sx_run_lam', abstract=['sx_detach', 'sx_spv_dtor'], ptypes={'LAMRUN': SX['sx_run_lam'] + '#0'}),
+    unitX('interval_sleep_lambda', 'sx_ivl_sleep', abstract=['sx_sleep_until'], ptypes={'LAMSL': SX['sx_ivl_sleep'] + '#1'}),
+]
+# ---- interval(): the lowered generator coroutine, real ramp + ONE resumption of its body from each of its suspension points (specs/C12/iv_spec.h; plain harness,
+#      recording stubs for stop_token / stop_callback / future<void> / co_awaiter<future<void>> / generator::promise_type / the clock)
+GENP = r'cocls::generator<unsigned long, void>::promise_type'
+CAV = r'cocls::co_awaiter<cocls::future<void> >'
+IV = dict(
+    ivl_resume=r'^cocls::generator<unsigned long, void> %s \[clone \.resume\]$' % IVL, ivl_ramp=r'^cocls::generator<unsigned long, void> %s$' % IVL,
+)
+IV_OPT = dict(
+    iv_cb_ctor=r'^std::stop_callback<%s::\{lambda\(\)#1\}>::stop_callback<' % IVL, iv_cb_dtor=r'^std::stop_callback<%s::\{lambda\(\)#1\}>::~stop_callback\(\)$' % IVL,
+    iv_tok_move=r'^std::stop_token::stop_token\(std::stop_token&&\)$', iv_tok_dtor=r'^std::stop_token::~stop_token\(\)$', iv_stop_requested=r'^std::stop_token::stop_requested\(\) const$',
+    iv_now=r'^std::chrono::_V2::system_clock::now\(\)$', iv_fut_ctor=r'^cocls::future<void>::future\(\)$', iv_fut_dtor=r'^cocls::future<void>::~future\(\)$',
+    iv_fut_shift=r'^cocls::future<void>& cocls::future<void>::operator<< <%s::\{lambda\(\)#2\}>\(' % IVL, iv_fut_co_await=r'^cocls::future<void>::operator co_await\(\)$',
+    iv_aw_ready=r'^%s::await_ready\(\)$' % CAV, iv_aw_suspend=r'^%s::await_suspend\(std::__n4861::coroutine_handle<void>\)$' % CAV, iv_aw_resume=r'^%s::await_resume\(\)$' % CAV,
+    iv_p_ctor=r'^%s::promise_type\(\)$' % GENP, iv_p_dtor=r'^%s::~promise_type\(\)$' % GENP, iv_p_gro=r'^%s::get_return_object\(\)$' % GENP, iv_p_final=r'^%s::final_suspend\(\)$' % GENP,
+    iv_p_yield=r'^%s::yield_value\(unsigned long&\)$' % GENP, iv_p_return_void=r'^%s::return_void\(\)$' % GENP, iv_p_unhandled=r'^%s::unhandled_exception\(\)$' % GENP,
+    iv_p_initial=r'^%s::initial_suspend\(\)$' % GENP, iv_ys_suspend=r'%s::yield_suspend::await_suspend<' % GENP, iv_ys_resume=r'^%s::yield_suspend::await_resume\(\)$' % GENP, iv_gen_dtor=r'^cocls::generator<unsigned long, void>::~generator\(\)$',
+)
+UNITS += [
+    dict(name='interval_step', driver='c12_sched.cpp', roots=[IV['ivl_resume'], IV['ivl_ramp']], names=dict(IV), names_opt=dict(IV_OPT),
+         types=dict(T_ST, GEN='cocls::generator<unsigned long, void>', GENPT='cocls::generator<unsigned long, void>::promise_type', CAV='cocls::co_awaiter<cocls::future<void> >', YS='cocls::generator<unsigned long, void>::promise_type::yield_suspend'),
+         ptypes={'IVFRAME': IV['ivl_resume'] + '#0', 'IVCB': IV_OPT['iv_cb_dtor'] + '#0', 'IVLAM1': IV_OPT['iv_cb_ctor'] + '#2', 'IVLAM2': IV_OPT['iv_fut_shift'] + '#1'},
+         globals={'AWAIT_CANCELED_TI': '_ZTIN5cocls24await_canceled_exceptionE'},
+         boundary=[r'^std::stop_callback<', r'^std::stop_token::', r'^std::chrono::_V2::system_clock::now', r'^cocls::future<void>::', r'cocls::future<void>::operator<< <', r'^cocls::co_awaiter<cocls::future<void> >::',
+                   r'^cocls::generator<unsigned long, void>::', r'cocls::generator<unsigned long, void>::promise_type::yield_suspend::await_suspend<'],
+         lib=['rt_core.c', 'rt_atomic_seq.c'], spec=['C12/iv_spec.h'], harness='h_interval_step', enforce=None, defines=[], unwind=4,
+         under_contract=['cocls::scheduler::interval<long, std::milli>(std::chrono::milliseconds, std::stop_token)  [ramp + one resumption of the lowered generator body from each suspension point]'], timeout=600),
+]
+# ---- bounded drives once more with heap algorithms that MOVE the entries as libstdc++ does (real SchItem move constructor / move assignment / destructor;
+#      lib/model_vec_heap_moves.c) - the abstract and the plain concrete model move entries by structure copies
+MOVE_SCRIPTS = ['SSSCG', 'SSCSG']
+UNITS += [
+    unit('drive_moves_' + sname, 'sch_drive', [RX['schedule'], RX['cancel_e'], RX['get_expired'], RX['remove_pred'], RX['item_move'], RX['item_dtor'], MV['item_move_assign']],
+         names=dict(HEAP, sch_drive=RX['schedule'], sch_schedule=RX['schedule'], sch_cancel_e=RX['cancel_e'], sch_get_expired=RX['get_expired'], sch_item_move=RX['item_move'],
+                    sch_item_move_assign=MV['item_move_assign'], vec_find_if=RX['find_if'], vec_find_pred=RX['remove_pred']),
+         names_opt=dict(VAR_NAMES, pr_call_exc=RX['pr_call_exc'], sp_dtor=RX['sp_dtor']), types=dict(T_SPB, **T_EXPIRED), boundary=[VARX], enforce=None,
+         spec=['C12/sch_spec.h', 'C12/h_drive.c'], harness='h_drive', defines=['C12_CONCRETE_VEC 1', 'C12_VEC_MOVES 1', 'CVEC_CAP 3', 'DRV_SCRIPT ' + ','.join(str('SCG'.index(c)) for c in sname)],
+         unwind=6, object_bits=12, kind='bounded',
+         bounded='manual mode, scripted history %s (S schedule, C cancel, G get_expired) with symbolic time points / identifiers (2) / now; <= 3 sleeps; concrete vector whose heap algorithms are those of libstdc++ 12 (stl_heap.h) moving entries through the real SchItem move constructor / move assignment' % sname,
+         timeout=900, under_contract=['cocls::scheduler::SchItem::operator=(cocls::scheduler::SchItem&&)  [as exercised by the heap algorithms in a scripted history]'])
+    for sname in MOVE_SCRIPTS
+]
 META = dict(
     level='proof',
-    level_text='Every function of scheduler.h that touches the scheduled heap is verified against a contract taken from the property statement, for every size and content of the heap (no bound on the number of entries, time points, identifiers or tombstones), with the two loops (get_expired_lk, remove) under loop contracts: get_expired_lk/get_expired(now): a returned promise is live, comes from an entry with time point <= now, and no pending sleep that remains is earlier; a returned time is the earliest time point, belongs to a pending sleep, and nothing pending is due (max() when empty); every pending sleep is either still pending and unaltered or is the one returned; nothing is resolved or dropped. remove(id): a live result was taken from an entry carrying id and exactly that entry is consumed; an empty result means no pending sleep carries id and nothing changed; every vector access is in range; one critical section, lock released. schedule: one entry more, the new entry unaltered, the first entry still the earliest, the worker notified whenever the heap was empty or the new entry is strictly earlier than the first one, every old entry kept. cancel(id,e) = one remove(id) + resolution of exactly the returned promise with exactly e, true/false accordingly, the awaiting coroutine handed to the caller; cancel(id) forwards with an exception whose dynamic type is await_canceled_exception; sleep_until/sleep_for schedule the promise of the returned future exactly once for (tp | one clock reading + duration, id); ~scheduler stops and joins a started worker first and then destroys the vector once, which drops (= cancels, C01) every pending promise; compare_item/pop_item as leaves. The stop-callback lambda of interval() is checked with everything it calls translated (lock discipline of std::mutex, no exception, other sleeps untouched). WORKER SIDE (thread, thread-pool and start(awaitable) mode - the modes the quantifier names): the real lowered coroutine worker_coro<false> / worker_coro<true> is executed for ONE resumption - its first one, after the real ramp function created the frame, and one from its suspension point in an arbitrary state satisfying the suspension invariant (inductive step: every loop iteration, no bound) - with std::visit modelled as the dispatch to the real visitor lambdas: the stop flag is tested, found clear, and wait_until entered within one critical section of _mx (waiter half of the wait/notify handshake); the deadline of the wait is exactly the earliest time point get_expired_lk() reported in that critical section from a clock reading taken after the last wake-up; a due promise is resolved exactly once, not dropped, and OUTSIDE _mx (user completion callbacks never run under the scheduler mutex); the worker never suspends, completes or reaches ~stop_callback with _mx held; it leaves its loop only on a stop request and then completes. The worker\'s stop-callback lambda (both instantiations) must pass through _mx between the setting of the stop flag and notify_all() (notifier half). start<future<int>&> is a forwarder: one worker for this scheduler listening to the stop source that the completion callback of the awaitable stops, callback attached before the worker runs, value returned / exception rethrown, nothing run with _mx held; under CV_CHECK_C03 (property C03) every access to scheduler::_elide_state - direct or through the stack_storage bound to it (real stack_storage code, permission instrumentation) - needs _mx. ~scheduler requests the stop before it joins, on the stop source / future of the same GlobState, neither with _mx held. ON THE UNCHANGED TREE three of these obligations FAIL (genuine defects, native replays registered): worker_stop_cb / worker_stop_cb_pool (stop callback notifies without _mx: lost stop request, ~scheduler and start(awaitable) hang; replay/c12_stop_lost_wakeup.cpp, specs/C12/fix_stop_notify.diff), worker_step / worker_step_pool (due promises resolved under _mx: a completion callback that calls cancel/schedule self-deadlocks the scheduling thread; replay/c12_callback_reenters.cpp, specs/C12/fix_resolve_unlocked.diff) and - under C03 - start_future (data race on _elide_state; replay/c03_scheduler_start_tsan.cpp, specs/C12/fix_elide_state.diff).',
-    level_note='"For every entry" is proved for one arbitrary-but-fixed tracked entry that the vector model follows through every permutation (quantifier-free). Trusted: the element-view model of std::vector<SchItem> and of std::push_heap/pop_heap/find_if (lib/model_vec_heap.c) - the heap algorithms are specified by their effect (permutation + "comp(moved/first, x) is false for every x", evaluated with the real translated compare_item) and are assumed to keep the std heap invariant that their own precondition demands; the abstract promise<void> (one owner word; resolution/drop recorded, future.h internals not translated); std::variant converting constructors; std::mutex via pthread primitives (sequential reading: every public operation is one critical section, cancel = one critical section + a resolution outside the lock); condition_variable::notify_all only counted. Each public operation is verified for one thread; interleavings reduce to sequences of critical sections (lock-based linearisability, argued not machine-checked). Worker side: each resumption of worker_coro is verified for one thread against abstract callees (stop_token / stop_callback, system_clock::now as a ghost clock, get_expired_lk by its contract, condition_variable::wait_until as release + re-acquire of _mx with arbitrary interference, coro_queue / pause / thread_pool::co_awaiter / async_promise as recorders, std::visit as index dispatch); that the two machine-checked halves of the wait/notify handshake exclude a lost wake-up - and hence that the worker terminates after request_stop() and future::wait() in ~scheduler / the run in start() returns - is the standard monitor argument, argued not machine-checked; thread-pool mode assumes the pool is not stopped while the scheduler runs in it. NOT covered: start_in(thread) / start_in(pool) (that they start worker_coro with the token of _glob_state->_stp and bind _glob_state->_fut is by reading), start<Awt> for awaitables other than future<int>& and the completion-callback lambda of start() (that it calls request_stop() on every path is by reading), the lifetime of the alloca frame of that callback when the awaitable is resolved by another thread, the body of interval() other than its stop callback (it yields an uninitialised counter: outside the property), wall-clock accuracy, std::stop_token internals, history-level composition (a sleep completes exactly once over a whole run: the per-operation contracts are the inductive steps, the induction over histories is not machine-checked). A reversed comparator is caught by compare_item and schedule only (the consumer units then prune instead of failing).',
-    technique='CBMC 6.11 code contracts (requires/ensures/assigns) and loop contracts enforced via goto-instrument --dfcc on the C translation of clang IR of scheduler.h; std containers/algorithms, promise<void>, variant, mutex, condition_variable as operational models with precondition obligations; forwarder units with recording stubs for cancel/sleep_until/sleep_for/destructor/start(awaitable); single-resumption (inductive-step) execution of the lowered worker coroutine; permission instrumentation for _elide_state',
+    level_text='Every function of scheduler.h that touches the scheduled heap is verified against a contract taken from the property statement, for every size and content of the heap (no bound on the number of entries, time points, identifiers or tombstones), with the two loops (get_expired_lk, remove) under loop contracts: get_expired_lk/get_expired(now): a returned promise is live, comes from an entry with time point <= now, and no pending sleep that remains is earlier; a returned time is the earliest time point, belongs to a pending sleep, and nothing pending is due (max() when empty); every pending sleep is either still pending and unaltered or is the one returned; nothing is resolved or dropped. remove(id): a live result was taken from an entry carrying id and exactly that entry is consumed; an empty result means no pending sleep carries id and nothing changed; every vector access is in range; one critical section, lock released. schedule: one entry more, the new entry unaltered, the first entry still the earliest, the worker notified whenever the heap was empty or the new entry is strictly earlier than the first one, every old entry kept. cancel(id,e) = one remove(id) + resolution of exactly the returned promise with exactly e, true/false accordingly, the awaiting coroutine handed to the caller; cancel(id) forwards with an exception whose dynamic type is await_canceled_exception; sleep_until/sleep_for schedule the promise of the returned future exactly once for (tp | one clock reading + duration, id); ~scheduler stops and joins a started worker first and then destroys the vector once, which drops (= cancels, C01) every pending promise; compare_item/pop_item as leaves. The stop-callback lambda of interval() is checked with everything it calls translated (lock discipline of std::mutex, no exception, other sleeps untouched). WORKER SIDE (thread, thread-pool and start(awaitable) mode - the modes the quantifier names): the real lowered coroutine worker_coro<false> / worker_coro<true> is executed for ONE resumption - its first one, after the real ramp function created the frame, and one from its suspension point in an arbitrary state satisfying the suspension invariant (inductive step: every loop iteration, no bound) - with std::visit modelled as the dispatch to the real visitor lambdas: the stop flag is tested, found clear, and wait_until entered within one critical section of _mx (waiter half of the wait/notify handshake); the deadline of the wait is exactly the earliest time point get_expired_lk() reported in that critical section from a clock reading taken after the last wake-up; a due promise is resolved exactly once, not dropped, and OUTSIDE _mx (user completion callbacks never run under the scheduler mutex); the worker never suspends, completes or reaches ~stop_callback with _mx held; it leaves its loop only on a stop request and then completes. The worker\'s stop-callback lambda (both instantiations) must pass through _mx between the setting of the stop flag and notify_all() (notifier half). start<future<int>&> is a forwarder: one worker for this scheduler listening to the stop source that the completion callback of the awaitable stops, callback attached before the worker runs, value returned / exception rethrown, nothing run with _mx held; under CV_CHECK_C03 (property C03) every access to scheduler::_elide_state - direct or through the stack_storage bound to it (real stack_storage code, permission instrumentation) - needs _mx. ~scheduler requests the stop before it joins, on the stop source / future of the same GlobState, neither with _mx held. START-UP AND GLUE (enforced forwarder contracts, specs/C12/st_spec.h, sx_spec.h, mv_spec.h): scheduler() constructs an empty heap and NO worker state (inactive: ~scheduler has nothing to wait for); GlobState() = one fresh future + one stop source, no pool, ~GlobState destroys each once; start_in(std::thread&) / start_in(thread_pool&): an already started scheduler is left alone, otherwise the worker state is created once, exactly one thread is created for THIS scheduler and handed to the caller, its closure owns THE promise of _glob_state->_fut (never dropped or resolved on the way - ~scheduler\'s wait() ends exactly when the worker ended), resp. _glob_state->_pool is the pool and _fut is bound once to the start-up closure of this scheduler in this pool; the thread body and the pool start-up lambda create exactly one worker_coro for the captured scheduler with a token of _glob_state->_stp (the source ~scheduler stops), start it once with that promise and - pool mode - hand it to THE pool\'s resume() exactly once instead of running it on the calling thread; start<std::thread&> / start<thread_pool&> forward once; the completion callback of start(awaitable) calls request_stop() on start()\'s stop source exactly once ON EVERY PATH (value / the awaitable carried an exception), keeps the value resp. the exception for start() and lets nothing escape; the body run under install_queue_and_call detaches and runs THE worker once. INTERVAL(): the real lowered generator coroutine is executed for one resumption from each of its three suspension points after the real ramp created the frame (inductive step, unit interval_step): the stop callback is registered exactly once on the generator\'s own token with {this scheduler, &tag}; every sleep is bound to {this scheduler, &next, THE SAME &tag} (lambda#2 forwards exactly that to sleep_until, unit interval_sleep_lambda; lambda#1 cancels &tag, unit interval_stop_cb) and is started only after a test of the token that found no stop request, at most one pending; a cancelled sleep (await_canceled_exception) or a stop request seen at the loop head ends the generator normally (return_void, final suspend, no further sleep, nothing escapes into the resumer), any other exception is reported through unhandled_exception; the stop callback is deregistered and the waiter destroyed exactly once on every exit and stay in place while suspended. MOVES OF ENTRIES: SchItem::operator=(SchItem&&) - used only by the real std::push_heap / pop_heap, which the container models replace - carries time point and identifier over intact, leaves exactly one owner of the promise (destination owns the source\'s sleep, source owns nothing) and completes (cancels) a live promise it overwrites exactly once (unit item_move_assign on the real compiler-generated operator= with the real promise<void>::operator=(promise&&) and claim()); promise<void>::operator=(promise&&), set_value(DropTag), operator bool, operator! have their own forwarder contracts. HISTORY (all repaired in /repo, the units pass on the current tree: commits 84ee5d4, 77acf12, 9739352 and - manual mode - 410ee1d, 42d798f, 7fc3571): on the originally pinned tree three of these obligations FAILED (genuine defects, native replays registered): worker_stop_cb / worker_stop_cb_pool (stop callback notifies without _mx: lost stop request, ~scheduler and start(awaitable) hang; replay/c12_stop_lost_wakeup.cpp, specs/C12/fix_stop_notify.diff), worker_step / worker_step_pool (due promises resolved under _mx: a completion callback that calls cancel/schedule self-deadlocks the scheduling thread; replay/c12_callback_reenters.cpp, specs/C12/fix_resolve_unlocked.diff) and - under C03 - start_future (data race on _elide_state; replay/c03_scheduler_start_tsan.cpp, specs/C12/fix_elide_state.diff).',
+    level_note='"For every entry" is proved for one arbitrary-but-fixed tracked entry that the vector model follows through every permutation (quantifier-free). Trusted: the element-view model of std::vector<SchItem> and of std::push_heap/pop_heap/find_if (lib/model_vec_heap.c) - the heap algorithms are specified by their effect (permutation + "comp(moved/first, x) is false for every x", evaluated with the real translated compare_item) and are assumed to keep the std heap invariant that their own precondition demands; the abstract promise<void> (one owner word; resolution/drop recorded, future.h internals not translated); std::variant converting constructors; std::mutex via pthread primitives (sequential reading: every public operation is one critical section, cancel = one critical section + a resolution outside the lock); condition_variable::notify_all only counted. Each public operation is verified for one thread; interleavings reduce to sequences of critical sections (lock-based linearisability, argued not machine-checked). Worker side: each resumption of worker_coro is verified for one thread against abstract callees (stop_token / stop_callback, system_clock::now as a ghost clock, get_expired_lk by its contract, condition_variable::wait_until as release + re-acquire of _mx with arbitrary interference, coro_queue / pause / thread_pool::co_awaiter / async_promise as recorders, std::visit as index dispatch); that the two machine-checked halves of the wait/notify handshake exclude a lost wake-up - and hence that the worker terminates after request_stop() and future::wait() in ~scheduler / the run in start() returns - is the standard monitor argument, argued not machine-checked; thread-pool mode assumes the pool is not stopped while the scheduler runs in it. Start-up units: std::optional<GlobState>, std::thread (constructor takes the closure over; destroying a joinable thread is an obligation), stop_source / stop_token, future<void> (get_promise, operator<<, constructor from a callable), the worker_coro ramp, async<void>::start / detach and thread_pool::resume<bool> are recording stubs; that future<void>::operator<< (-> result_of) destroys the old future once and constructs the result of the callable IN PLACE evaluating it exactly once, that future(fn) calls fn exactly once with THE promise of the new future, and that the move constructor of the thread closure carries scheduler and promise over with exactly one owner, is proved on the real future.h / closure code for the pool / thread start-up instantiations (units fut_shift_pool, fut_ctor_inner, start_in_thread_closure_move); the same operator<< template instantiated with lambda#2 of interval() is taken to behave alike. interval_step: stop_token / stop_callback / the clock / future<void> and its co_awaiter (answers of await_ready / await_suspend and the outcome of await_resume are inputs) / generator<size_t>::promise_type (property C13) are recording stubs, symmetric transfer goes to a no-op frame; that a stop requested between the token test and the scheduling of the next sleep delays the end by at most one interval (the callback finds nothing to cancel) follows from these steps, not machine-checked as a history. The bounded drives drive_moves_* repeat two scripted histories with heap algorithms transcribed from libstdc++ 12 stl_heap.h (lib/model_vec_heap_moves.c) that move entries through the REAL SchItem move constructor / move assignment / destructor - the abstract model and the plain concrete model move entries by structure copies, justified by unit item_move_assign. NOT covered: start<Awt> for awaitables other than future<int>&, the lifetime of the alloca frame of the completion callback when the awaitable is resolved by another thread, the VALUE interval() yields (an uninitialised counter: outside the property), self move-assignment of SchItem / promise (the heap algorithms never do it), promise<void>::set_value<>() / operator()<...> variants and future<void> internals (property C01), wall-clock accuracy, std::stop_token internals, history-level composition (a sleep completes exactly once over a whole run: the per-operation contracts are the inductive steps, the induction over histories is not machine-checked). A reversed comparator is caught by compare_item and schedule only (the consumer units then prune instead of failing).',
+    technique='CBMC 6.11 code contracts (requires/ensures/assigns) and loop contracts enforced via goto-instrument --dfcc on the C translation of clang IR of scheduler.h (and of promise<void> members of future.h); std containers/algorithms, promise<void>, variant, mutex, condition_variable as operational models with precondition obligations; forwarder units with recording stubs for cancel/sleep_until/sleep_for/destructor/start(awaitable); single-resumption (inductive-step) execution of the lowered worker coroutine; permission instrumentation for _elide_state',
     trusted_base=['assumed contract: std::vector<scheduler::SchItem> + std::push_heap/pop_heap/find_if, element view with a tracked element (lib/model_vec_heap.c)',
+                  'bounded drives drive_moves_*: concrete vector with the heap algorithms of libstdc++ 12 transcribed (lib/model_vec_heap_moves.c); promise<void>::operator=(promise&&) there as proved in unit pr_move_assign (3-line stub in specs/C12/sch_spec.h)',
+                  'units of specs/C12/mv_spec.h: promise<void>::set_value(DropTag) as "claims; a live owner is completed without a value once" (proved in unit pr_set_drop against future<void>::resolve() as recording stub), suspend_point<bool> constructors / destructors, std::vector / std::mutex / std::condition_variable / std::optional / future<void> / std::stop_source constructors and destructors as counters',
+                  'units of specs/C12/st_spec.h, sx_spec.h, iv_spec.h: recording stubs listed in level_note (std::optional<GlobState>, std::thread, stop_source / stop_token / stop_callback, future<void> members, co_awaiter<future<void>>, worker_coro ramp, async<void>::start / detach, thread_pool::resume<bool>, await_result<int>::operator*, std::optional<int>::emplace, generator<size_t>::promise_type members, system_clock::now)',
                   'assumed contract: cocls::promise<void> = one owner word; move/bool/destructor/operator()(exception_ptr) record completions in ghost state (lib/model_promise.c)',
                   'assumed contract: std::variant<time_point, promise<void>> converting constructors (lib/model_variant_expired.c)',
                   'primitive: std::mutex = pthread_mutex_lock/unlock with "not locked again by its holder" obligation (lib/model_mutex.c); condition_variable::notify_all counted (specs/C12/sch_spec.h)',
@@ -172,6 +311,8 @@ META = dict(
                   'worker units (specs/C12/wk_spec.h): std::stop_token::stop_requested (monotone flag another thread may set at any time), std::stop_callback constructor (runs the real callback when the stop is already requested) / destructor, ghost clock, get_expired_lk by contract, condition_variable::wait_until = release + re-acquire of _mx, std::visit = dispatch on the variant index to the real visitor instances, pause / thread_pool::co_awaiter / thread_pool::resume / any_enqueued / coro_queue::can_block / async_promise<void> members as recorders',
                   'unit start_future: the alloca builtin replaced by an external function in this one TU (drivers/c12_alloca_shim.h), worker_coro ramp / callback_await_alloc (creates the callback frame through the real stack_storage::alloc) / install_queue_and_call (models the completion) / stop_source / optional<int> as recorders; ir2c permission instrumentation on scheduler::_elide_state and stack_storage::_state (first access of a storage object = its constructor binding the reference)'],
     assumptions=['fewer than 2^62 scheduled entries (size counter never wraps)',
+                 'start-up units: each is verified for one thread; start_in is not called concurrently with itself on one scheduler (documented: "it can run only once"); a callable handed to std::thread / future<void>::operator<< / future(fn) is invoked exactly once by them',
+                 'interval_step: the co_awaiter of the waiter resumes the generator exactly once per sleep (C01/C02); other threads only ever SET the stop flag',
                  'the scheduled vector is manipulated only through the modelled operations (operator[], empty, begin/end as algorithm arguments, push_back+push_heap, pop_heap+pop_back, find_if); time points of stored entries are never written (true of scheduler.h by inspection of the translated units: every access goes through the model)',
                  'each public operation runs as one critical section of _mx; results for concurrent use follow by lock-based linearisability (not machine-checked)',
                  'promise<void> is a linear resource: a live owner word is held by exactly one promise object (property C01)',
